@@ -507,7 +507,9 @@ fn gen_prog(rng: &mut TestRng, i: usize, which: Which) -> ChainProg {
     // ... nor may `lazy_branches(true)` with a joiner that calls the branch closures in the sequential macros
     let options = if which == Which::C19 && kind.is_async && branches.len() >= 2 && rb(rng, 0.4) {
         format!("custom_joiner(jvrt::{}!) ", if kind.is_try { "jv_ptry" } else { "jv_pjoin" })
-    } else if which == Which::C19 && !kind.is_async && !kind.is_spawn && branches.len() >= 2 && !branches.iter().any(|b| b.init_text.contains("iter_mut")) && rb(rng, 0.4) {
+    } else if which == Which::C19 && !kind.is_async && !kind.is_spawn && branches.len() >= 2 && !branches.iter().any(|b| b.init_text.contains("iter_mut") || cap_in_wrapper(&b.ops, false)) && rb(rng, 0.4) {
+        // (nor can a lazy value that borrows a hoisted block capture - a wrapper closure is not `move` - leave
+        // the `move ||` a lazy branch is: the rule of section 7.3, as for the spawning macros)
         // (a branch that hands out a reborrow of a `&mut` local cannot be a closure in plain Rust either:
         // `move || m.iter_mut()` does not compile - such programs keep eager branches)
         if rb(rng, 0.5) { "lazy_branches(true) custom_joiner(jvrt::jv_plazy!) ".to_string() } else { "custom_joiner(jvrt::jv_plazy!) lazy_branches(true) ".to_string() }
@@ -767,6 +769,11 @@ pub struct CaseCode {
     pub ref_from: usize,
     pub n_ops: usize,
     pub concurrent: bool,
+}
+
+/// a block capture somewhere inside a wrapper body
+fn cap_in_wrapper(ops: &[COp], inside: bool) -> bool {
+    ops.iter().any(|o| (inside && o.operands.iter().any(|t| t.contains("cap("))) || o.inner.as_ref().map(|i| cap_in_wrapper(i, true)).unwrap_or(false))
 }
 
 fn all_steps_has_deferred(p: &ChainProg) -> bool {
